@@ -3,7 +3,8 @@
 From Coq Require Import List ZArith NArith Bool.
 From Coq.Strings Require Import Byte.
 Import ListNotations.
-From BWTable Require Import Cells Fmt StrOrder Sort SortProofs ValueOrder SortSpec Limit Reduce ReduceSpec GroupProofs Expr ExprSpec Exec ValueEngine.
+From BWValues Require TimeCodec.
+From BWTable Require Import Cells Fmt StrOrder Sort SortProofs ValueOrder SortSpec Limit TimeLaw Reduce ReduceSpec GroupProofs Expr ExprSpec Exec ValueEngine.
 Open Scope Z_scope.
 
 (* the repairs applied to /repo so far (the model follows the CURRENT tree) *)
@@ -67,6 +68,9 @@ Definition cell_fmt_ok (c : cell) : bool :=
       | VFloat _ => true
       | _ => str_eqb (l_cmp l) (l_str l)
       end
+  | CT t =>
+      (* anchors: the printed form is the rendering of the Gallina RFC3339Nano formatter of the Values family *)
+      if ns_dom_b t then str_eqb (t_str t) (TimeCodec.fmt_rfc3339nano (vtime t)) else true
   | _ => true
   end.
 Definition rows_fmt_ok (l : list row) : bool := forallb (fun r => forallb (fun p => cell_fmt_ok (snd p)) r) l.
